@@ -11,12 +11,6 @@ contract(M + "Dependencies.validate_schema_dependency",
          raises=[("ValidationError", "not sem(dependency, value)")],
          calls={"dependency": ECALL}, props=["C01", "C10", "C08"])
 
-contract("statham.schema.elements.properties:Properties.__contains__",
-         requires="is_str(key)", returns="result is props_accepts(self, key)",
-         ghost={"function": "props_accepts(self, key)"},
-         result_kind="bool", trusted=True, props=["C01"],
-         note="verified in contracts/elements_properties.py")
-
 contract(M + "Required.from_element",
          requires="is_obj(element) and (attr_absent(element,'required') or is_np(element.required) or is_none(element.required) or ("
                   + STRLIST.format(x="element.required") + ")) and (attr_absent(element,'properties') or is_np(element.properties) "
